@@ -454,7 +454,10 @@ impl<R: BufRead + Seek> WebPDecoder<R> {
                     match self.read_chunk(WebPRiffChunk::ANIM, 6) {
                         Ok(Some(chunk)) => {
                             let mut cursor = Cursor::new(chunk);
-                            cursor.read_exact(&mut info.background_color)?;
+                            // The container stores the background color as [Blue, Green, Red, Alpha].
+                            let mut bgra = [0u8; 4];
+                            cursor.read_exact(&mut bgra)?;
+                            info.background_color = [bgra[2], bgra[1], bgra[0], bgra[3]];
                             self.loop_count = match cursor.read_u16::<LittleEndian>()? {
                                 0 => LoopCount::Forever,
                                 n => LoopCount::Times(NonZeroU16::new(n).unwrap()),
